@@ -67,10 +67,12 @@ Theorem C08_read_total_partial : forall ts out,
 Proof. exact read_total. Qed.
 Print Assumptions C08_read_total_partial.
 
-Theorem C08_read_total_refuted :
+(* why the side condition is there: '1 0J R' makes the parser raise IndexError.  A shortcut directly after a jump is
+   outside NL(x) of DESIGN.md 5.2 (the crash is an error-hygiene matter, property C13), so this is no C08 finding *)
+Theorem C08_read_zero_jump_crash :
   exists ts out, spec_expand ts = Some out /\ parse_list ts = PErr PCrash.
 Proof. exact read_zero_jump_refuted. Qed.
-Print Assumptions C08_read_total_refuted.
+Print Assumptions C08_read_zero_jump_crash.
 
 Example C08_read_total_nonvacuous :
   spec_expand [TNum 1; TRep (Some 2%nat); TRep None; TRep (Some 3%nat); TInt (Some 2%nat); TNum 0] <> None /\
